@@ -100,7 +100,9 @@ theorem shrinks_step (op : Op) (s : Store) (h : Inv s) (hk : op.keepsKeys = true
     | none => exact shrinks_addEdge _ _ _ s
     | some p => simp only; split; exact R; exact shrinks_addEdge _ _ _ s
   | updateNodeProperty g nid k v =>
-    simp only [step, updateNodeProperty]
+    simp only [step]
+    refine assertVal_pred (Shrinks s) _ s _ R ?_
+    simp only [updateNodeProperty]
     split
     · exact R
     · simp only [Op.keepsKeys, Bool.and_eq_true, bne_iff_ne, ne_eq] at hk
@@ -122,7 +124,9 @@ theorem shrinks_step (op : Op) (s : Store) (h : Inv s) (hk : op.keepsKeys = true
           · exact shrinks_updNode s i _ (fun n _ _ => AMap.get_erase_ne _ _ _ h1) (fun n _ _ => AMap.get_erase_ne _ _ _ h2)
           · exact R
   | updateNodesProperty g k v =>
-    simp only [step, updateNodesProperty]
+    simp only [step]
+    refine assertVal_pred (Shrinks s) _ s _ R ?_
+    simp only [updateNodesProperty]
     split
     · exact R
     · split
@@ -140,7 +144,9 @@ theorem shrinks_step (op : Op) (s : Store) (h : Inv s) (hk : op.keepsKeys = true
         (fun n _ _ => AMap.get_update_not_mem _ _ _ (AMap.not_mem_keys_of_has_false _ _ hk.1))
         (fun n _ _ => AMap.get_update_not_mem _ _ _ (AMap.not_mem_keys_of_has_false _ _ hk.2)))
   | updateLinkProperty g a b kind k v =>
-    simp only [step, updateLinkProperty]
+    simp only [step]
+    refine assertVal_pred (Shrinks s) _ s _ R ?_
+    simp only [updateLinkProperty]
     split
     · exact R
     · exact withLink_pred (Shrinks s) s g a b kind _ R (fun _ _ _ _ _ => shrinks_of_nodes_eq _ _ rfl)
